@@ -46,8 +46,6 @@ ResolveRec(c, rec) == IF IsTime(rec) THEN NoRes ELSE Resolve(c, BinOf(c, PairOf(
 SymT == [k \in 1..12 |-> Sym(k)]
 SymRes0 == [k \in 1..12 |-> ResolveRec(C0(0), Sym(k))]
 SymRes1 == [k \in 1..12 |-> ResolveRec(C0(1), Sym(k))]
-Zero0 == ZeroHist(C0(0))
-Zero1 == ZeroHist(C0(1))
 \* time marks never go back (symbols 8..12 are time marks with increasing times)
 MonotoneIds(str) == \A i, j \in 1..Len(str) : (i < j /\ str[i] >= 8 /\ str[j] >= 8) => str[i] <= str[j]
 
@@ -58,8 +56,8 @@ Init == \E p \in Params : \E str \in Streams :
           /\ tab = PlanOf(ParamOf(p))
           /\ rs = [i \in 1..Len(str) |-> IF p.maxSeg = 0 THEN SymRes0[str[i]] ELSE SymRes1[str[i]]]
           /\ m = [pc |-> "init", f |-> 1, bi |-> 1, pos |-> 0, ct |-> 0, fct |-> 0, more |-> 0, empty |-> FALSE,
-                  spos |-> 0, sid |-> 0, acc |-> IF p.maxSeg = 0 THEN Zero0 ELSE Zero1, out |-> IF p.maxSeg = 0 THEN Zero0 ELSE Zero1]
-          /\ prev = IF p.maxSeg = 0 THEN Zero0 ELSE Zero1
+                  spos |-> 0, sid |-> 0, acc |-> ZeroHist, out |-> ZeroHist]
+          /\ prev = ZeroHist
           /\ H = << >>
 
 ev == Expected(tab, Len(s), m)
@@ -67,7 +65,7 @@ Step(rec, r) ==
   /\ m' = LET m1 == Apply(P, tab, m, ev, rec, r, m.f) IN
           \* FixEmpty = FALSE models the code as it is: a frame without a time mark is not recognised as empty
           IF ~FixEmpty /\ ev[1] = "FrameStart" THEN [m1 EXCEPT !.empty = FALSE] ELSE m1
-  /\ prev' = IF ev[1] = "NewFrame" THEN (IF P.fresh \/ ev[2] = 1 THEN ZeroHist(P.c) ELSE m.out) ELSE prev
+  /\ prev' = IF ev[1] = "NewFrame" THEN (IF P.fresh \/ ev[2] = 1 THEN ZeroHist ELSE m.out) ELSE prev
   /\ UNCHANGED << P, s, rs, tab, H >>
 NoRec == << 0, 0, 0, 0, 0, 0 >>
 
@@ -97,7 +95,7 @@ InvBatches == (m.pc = "init") => (BatchesPartition(P) /\ Monotone(s) /\ LegalFra
 \* "adds ... exactly one count ... to the bin ... and nothing else; the result does not depend on how many
 \*  segments or TOF bins are held in memory at once": after every pass, and at the end of every frame, the
 \*  output is the abstract histogram (which does not mention the batch sizes) on what has been saved
-InvOut == m.pc \in {"batch", "endframe"} => OutCorrect(P, tab, H[m.f], m, prev)
+InvOut == m.pc \in {"batch", "endframe"} => OutCorrect(tab, H[m.f], m, prev)
 \* "the frames of a partition of a time interval add up to the histogram of the whole interval"
 InvPartition == (m.pc = "init") => PartitionAddsUp(P, s, rs)
 \* the stream is never read beyond its end and a pass never starts before the saved frame start
@@ -105,9 +103,7 @@ InvPos == m.pos >= 0 /\ m.pos <= Len(s) /\ (m.pc = "read" => m.pos >= m.spos)
 \* num_events_to_store: "counts each stored event once irrespective of batching": the net number of counts
 \* stored in a frame never exceeds nStore
 InvCount == (m.pc = "endframe" /\ ~TimeMode(P)) =>
-              LET RECURSIVE Tot(_, _)
-                  Tot(q, i) == IF i = 0 THEN 0 ELSE q[i] + Tot(q, i - 1)
-                  RECURSIVE TotS(_)
-                  TotS(S) == IF S = {} THEN 0 ELSE LET x == CHOOSE y \in S : TRUE IN Tot(m.out[x[1]][x[2]], SegSize(P.c, x[2])) + TotS(S \ {x})
-              IN TotS(TofBins(P.c) \X Segs(P.c)) <= P.nStore
+              LET RECURSIVE TotS(_)
+                  TotS(S) == IF S = {} THEN 0 ELSE LET x == CHOOSE y \in S : TRUE IN m.out[x] + TotS(S \ {x})
+              IN TotS(DOMAIN m.out) <= P.nStore
 =============================================================================
